@@ -2,6 +2,8 @@ package main
 
 import (
 	"bytes"
+	"fmt"
+	"os"
 	"go/ast"
 	"go/printer"
 	"go/types"
@@ -74,6 +76,53 @@ func (r *Run) extractShape() {
 		return false
 	}
 	chk("const", "untyped constants are bound through fixConst, typed ones by qualified name, both by value", has("*types.Const", "val[name] = Val{fixConst(pname, o.Val(), imports), false}") && has("*types.Const", "val[name] = Val{pname, false}") && len(stores["*types.Const"]) == 2, strings.Join(stores["*types.Const"], "; "))
+	// the guard of the fixConst store: EVERY untyped constant (int, rune, float, complex, string, bool) takes
+	// that path — the test is the IsUntyped bit of the basic type, not a list of kinds
+	var guards []string
+	for _, cl := range sw.Body.List {
+		cc := cl.(*ast.CaseClause)
+		if len(cc.List) != 1 || types.ExprString(cc.List[0]) != "*types.Const" {
+			continue
+		}
+		var walk func(n ast.Node, conds []string)
+		walk = func(n ast.Node, conds []string) {
+			ast.Inspect(n, func(m ast.Node) bool {
+				if m == nil || m == n {
+					return true
+				}
+				switch m := m.(type) {
+				case *ast.IfStmt:
+					walk(m.Body, append(append([]string{}, conds...), "if "+types.ExprString(m.Cond)))
+					if m.Else != nil {
+						walk(m.Else, append(append([]string{}, conds...), "else of "+types.ExprString(m.Cond)))
+					}
+					return false
+				case *ast.CaseClause:
+					var ls []string
+					for _, e := range m.List {
+						ls = append(ls, types.ExprString(e))
+					}
+					walk(&ast.BlockStmt{List: m.Body}, append(append([]string{}, conds...), "case "+strings.Join(ls, ", ")))
+					return false
+				case *ast.AssignStmt:
+					var rb bytes.Buffer
+					if len(m.Rhs) == 1 {
+						printer.Fprint(&rb, r.L.Fset, m.Rhs[0])
+					}
+					if strings.Contains(rb.String(), "fixConst(") {
+						guards = append(guards, strings.Join(conds, " / "))
+					}
+				}
+				return true
+			})
+		}
+		walk(&ast.BlockStmt{List: cc.Body}, nil)
+	}
+	if os.Getenv("GOVC_DEBUG") != "" {
+		fmt.Fprintf(os.Stderr, "guards=%q\n", guards)
+	}
+	okGuard := len(guards) == 1 && !strings.Contains(guards[0], " / ") && strings.HasPrefix(guards[0], "if ") && strings.Contains(strings.ReplaceAll(guards[0], " ", ""), "b.Info()&types.IsUntyped)!=0") && !strings.Contains(guards[0], "Kind()")
+	chk("const/untyped-test", "the fixConst path is taken exactly when the constant's basic type has the IsUntyped bit", okGuard, strings.Join(guards, "; "))
 	chk("func", "functions are bound by value under their own name; generic functions are skipped", has("*types.Func", "val[name] = Val{pname, false}") && len(stores["*types.Func"]) == 1 && skipsGeneric["*types.Func"], strings.Join(stores["*types.Func"], "; "))
 	chk("var", "variables are bound by address under their own name", has("*types.Var", "val[name] = Val{pname, true}") && len(stores["*types.Var"]) == 1, strings.Join(stores["*types.Var"], "; "))
 	chk("type", "types are bound as types under their own name; generic types are skipped; interfaces get a wrapper", has("*types.TypeName", "typ[name] = pname") && has("*types.TypeName", "wrap[name] = Wrap{prefix + name, methods}") && skipsGeneric["*types.TypeName"], strings.Join(stores["*types.TypeName"], "; "))
